@@ -54,7 +54,10 @@ class AnswerCheck(HistCheck):
         text = ' '.join(c.get('text', '') for c in case['hist']['commands'])
         big = any(len(tok) >= 10 and tok.rstrip('.0').isdigit() for tok in text.replace('(', ' ').replace(')', ' ').split())
         return {'logic': case.get('logic') or case['hist']['logic'], 'engine': engine_of(case['options']), 'bigconst': big,
-                'pushed': any(c['k'] == 'push' for c in case['hist']['commands'])}
+                'pushed': any(c['k'] == 'push' for c in case['hist']['commands']),
+                # an uninterpreted function with a Boolean argument is applied somewhere in the history (OpenSMT keeps the formulas
+                # that appear as arguments in a side list, "FIXME: Find a better way to deal with Bools in UF" in MainSolver::solve)
+                'bool_arg_uf': any(('(%s ' % d['name']) in text for d in case['hist']['decls'] if d['k'] == 'declare-fun' and 'Bool' in d.get('args', []))}
 
 
 def engine_of(options):
